@@ -220,13 +220,20 @@ def helper_effect(ex, st, b, start, whole=False):
                       z3.Implies(z3.And(j0 >= 0, j0 < s_t), b.clause(st_q, src, j0)), None)
     ex.ctx.oblige(st_q, "pre@call", f"{_short(b.N)}.calculate_index:inputs-well-formed#{site}",
                   z3.Implies(z3.And(j0 >= 0, j0 <= s_t), b.contiguity(st_q, j0)), None)
+    # a helper driven twice for the same index with unchanged inputs computes the same value again
+    # (it is deterministic): keep the first result instead of an unrelated fresh one
+    sig = (z3.simplify(s_t).sexpr(),) + tuple(z3.simplify(ser.lookup_V(b.env[x], s_t)).sexpr() for x in b.spec.inputs)
+    memo = st.ghost.setdefault("helper-memo", HelperMemo())
+    if not whole and memo.items.get(_short(b.N)) == sig:
+        return
+    memo.items[_short(b.N)] = sig
     if whole:
         ser.havoc_all(b.which, b.N, vals_fresh("hv"))
     else:
         ser.havoc_at(b.which, b.N, s_t, vals_fresh("hv"))
     ser.written_now.add(b.N)
     st.heap[b.inst.oid].fields["_active_index"] = concretize_int(start)
-    for label, src, _ in b.inv_items():
+    for label, src, _ in b.inv_items(assume_only=True):
         st.assume(b.clause(st, src, s_t, tight=True))
     st.assume(ser.has(b.which, b.N, s_t))
     if whole:
@@ -238,6 +245,14 @@ def helper_effect(ex, st, b, start, whole=False):
         o = st.heap[ch.inst.oid]
         if o.fields.get("_sub_calc_prior", True) is False:
             helper_effect(ex, st, ch, start, whole)
+
+
+class HelperMemo:
+    def __init__(self, items=None):
+        self.items = dict(items or {})
+
+    def clone(self):
+        return HelperMemo(self.items)
 
 
 def vals_fresh(base):
@@ -406,7 +421,7 @@ def run_indicator_task(source, contracts, loops, spec, variant, natives=None, ti
                     if b.role == "prior":
                         continue
                     pre = "" if b is top else f"helper[{_short(b.N)}]:"
-                    for label, src, props in b.inv_items():
+                    for label, src, props in b.inv_items(assume_only=(b is not top)):
                         ex.ctx.oblige(st1, "inv-preserve", pre + label, b.clause(st1, src, i, old, tight=(b is top)), loop, props=props or None)
                     if b.role == "helper":
                         ex.ctx.oblige(st1, "inv-preserve", pre + "inputs-well-formed", b.contiguity(st1, i), loop)
